@@ -13,7 +13,7 @@ namespace TreeLemmas
 
 /-! ### the table -/
 
-theorem lookup_setItem (e : Exports) (p : Str) (o : Obj) (s : Str) :
+theorem lookup_setItem {α : Type} (e : Table α) (p : Str) (o : α) (s : Str) :
     lookup (setItem e p o) s = if p = s then some o else lookup e s := by
   induction e with
   | nil => simp [setItem, lookup]
@@ -28,7 +28,7 @@ theorem lookup_setItem (e : Exports) (p : Str) (o : Obj) (s : Str) :
         simp [setItem, lookup, hk, this]
       · simp [setItem, lookup, hk, hs, ih]
 
-theorem lookup_delItem (e : Exports) (p s : Str) :
+theorem lookup_delItem {α : Type} (e : Table α) (p s : Str) :
     lookup (delItem e p) s = if p = s then none else lookup e s := by
   induction e with
   | nil => simp [delItem, lookup]
@@ -46,7 +46,7 @@ theorem lookup_delItem (e : Exports) (p s : Str) :
         simp [delItem, lookup, hk, this]
       · simp [delItem, lookup, hk, hs, ih]
 
-theorem mem_keys_iff (e : Exports) (s : Str) : s ∈ keys e ↔ (lookup e s).isSome = true := by
+theorem mem_keys_iff {α : Type} (e : Table α) (s : Str) : s ∈ keys e ↔ (lookup e s).isSome = true := by
   induction e with
   | nil => simp [keys, lookup]
   | cons kv e ih =>
@@ -57,7 +57,7 @@ theorem mem_keys_iff (e : Exports) (s : Str) : s ∈ keys e ↔ (lookup e s).isS
     · have : ¬ s = k := fun h => hs h.symm
       simp [lookup, hs, this, ih]
 
-theorem keys_setItem (e : Exports) (p : Str) (o : Obj) :
+theorem keys_setItem {α : Type} (e : Table α) (p : Str) (o : α) :
     keys (setItem e p o) = if p ∈ keys e then keys e else keys e ++ [p] := by
   induction e with
   | nil => simp [setItem, keys]
@@ -70,21 +70,47 @@ theorem keys_setItem (e : Exports) (p : Str) (o : Obj) :
       simp only [setItem, hk, if_false, List.map_cons, ih, this, false_or]
       split <;> simp [*]
 
-theorem keys_delItem (e : Exports) (p : Str) : keys (delItem e p) = (keys e).filter (fun k => !(k == p)) := by
+theorem keys_delItem {α : Type} (e : Table α) (p : Str) : keys (delItem e p) = (keys e).filter (fun k => !(k == p)) := by
   simp [keys, delItem, List.filter_map, Function.comp_def]
+
+theorem nodup_keys_setItem {α : Type} (e : Table α) (p : Str) (o : α) (h : (keys e).Nodup) :
+    (keys (setItem e p o)).Nodup := by
+  rw [keys_setItem]
+  split
+  · exact h
+  · rename_i hn
+    rw [List.nodup_append]
+    refine ⟨h, by simp, ?_⟩
+    intro a ha b hb
+    simp at hb; subst hb
+    intro hab; subst hab; exact hn ha
+
+theorem mem_table_iff_lookup {α : Type} (e : Table α) (h : (keys e).Nodup) (k : Str) (v : α) :
+    (k, v) ∈ e ↔ lookup e k = some v := by
+  induction e with
+  | nil => simp [lookup]
+  | cons kv e ih =>
+    obtain ⟨k0, v0⟩ := kv
+    simp only [keys, List.map_cons, List.nodup_cons] at h
+    have ih' := ih h.2
+    by_cases hk : k0 = k
+    · subst hk
+      simp only [List.mem_cons, Prod.mk.injEq, true_and, lookup, if_true, Option.some.injEq]
+      constructor
+      · rintro (h1 | h1)
+        · exact h1.symm
+        · exact absurd (List.mem_map.mpr ⟨_, h1, rfl⟩) h.1
+      · intro h1; exact Or.inl h1.symm
+    · have hk' : ¬ k = k0 := fun x => hk x.symm
+      simp [lookup, hk, hk', ih']
 
 theorem nodup_keys_step (e : Exports) (op : Op) (h : (keys e).Nodup) : (keys (step e op).exports).Nodup := by
   cases op with
   | «export» o =>
-    simp only [step, keys_setItem]
+    simp only [step]
     split
+    · exact nodup_keys_setItem _ _ _ h
     · exact h
-    · rename_i hn
-      rw [List.nodup_append]
-      refine ⟨h, by simp, ?_⟩
-      intro a ha b hb
-      simp at hb; subst hb
-      intro hab; subst hab; exact hn ha
   | unexport p =>
     simp only [step]
     split
@@ -116,7 +142,11 @@ theorem nodup_keys_run (h : List Op) : (keys (run h)).Nodup :=
 theorem lookup_step (e : Exports) (op : Op) (s : Str) :
     lookup (step e op).exports s = visibleStep s (lookup e s) op := by
   cases op with
-  | «export» o => simp [step, lookup_setItem, visibleStep]
+  | «export» o =>
+    simp only [step, visibleStep]
+    by_cases hs : o.sendable = true
+    · simp [hs, lookup_setItem]
+    · simp [hs]
   | unexport p =>
     simp only [step, visibleStep]
     split
@@ -140,7 +170,8 @@ theorem lookup_run (h : List Op) (s : Str) : lookup (run h) s = exportedAfter h 
 /-! ### spec: histories -/
 
 theorem foldl_visible_some (h : List Op) (s : Str) (cur : Option Obj) (o : Obj)
-    (hs : h.foldl (visibleStep s) cur = some o) : cur = some o ∨ (Op.export o ∈ h ∧ o.path = s) := by
+    (hs : h.foldl (visibleStep s) cur = some o) :
+    cur = some o ∨ (Op.export o ∈ h ∧ o.path = s ∧ o.sendable = true) := by
   induction h generalizing cur with
   | nil => exact Or.inl hs
   | cons op h ih =>
@@ -152,7 +183,7 @@ theorem foldl_visible_some (h : List Op) (s : Str) (cur : Option Obj) (o : Obj)
         split at h1
         · rename_i hp
           cases h1
-          exact Or.inr ⟨by simp, hp⟩
+          exact Or.inr ⟨by simp, hp.2, hp.1⟩
         · exact Or.inl h1
       | unexport q =>
         simp only [visibleStep] at h1
@@ -165,7 +196,13 @@ theorem exportedAfter_some {h : List Op} {s : Str} {o : Obj} (hs : exportedAfter
     Op.export o ∈ h ∧ o.path = s := by
   rcases foldl_visible_some h s none o hs with h1 | h1
   · cases h1
-  · exact h1
+  · exact ⟨h1.1, h1.2.1⟩
+
+theorem exportedAfter_sendable {h : List Op} {s : Str} {o : Obj} (hs : exportedAfter h s = some o) :
+    o.sendable = true := by
+  rcases foldl_visible_some h s none o hs with h1 | h1
+  · cases h1
+  · exact h1.2.2
 
 theorem mem_mentioned {h : List Op} {o : Obj} (ho : Op.export o ∈ h) : o.path ∈ mentioned h := by
   induction h with
@@ -349,68 +386,102 @@ theorem sortStr_perm (l : List Str) : (sortStr l).Perm l := by
     simp only [sortStr, List.foldr_cons] at ih ⊢
     exact (insertSorted_perm x _).trans (List.Perm.cons x ih)
 
-theorem dictKeys_aux (l acc : List Str) :
-    let r := l.foldl (fun acc k => if acc.contains k then acc else acc ++ [k]) acc
-    (acc.Nodup → r.Nodup) ∧ ∀ x, x ∈ r ↔ x ∈ acc ∨ x ∈ l := by
-  induction l generalizing acc with
+theorem nodup_keys_foldl_setItem (l : List (Str × Nat)) (d : Table Nat) (hd : (keys d).Nodup) :
+    (keys (l.foldl (fun d kv => setItem d kv.1 kv.2) d)).Nodup := by
+  induction l generalizing d with
+  | nil => exact hd
+  | cons kv l ih => exact ih _ (nodup_keys_setItem _ _ _ hd)
+
+theorem lookup_foldl_setItem (l : List (Str × Nat)) (d : Table Nat)
+    (hc : ∀ n t t', (n, t) ∈ l → (n, t') ∈ l → t = t') (n : Str) (t : Nat) :
+    lookup (l.foldl (fun d kv => setItem d kv.1 kv.2) d) n = some t ↔
+      (n, t) ∈ l ∨ (n ∉ l.map Prod.fst ∧ lookup d n = some t) := by
+  induction l generalizing d with
   | nil => simp
-  | cons k l ih =>
+  | cons kv l ih =>
+    obtain ⟨m, u⟩ := kv
+    have hc' : ∀ n t t', (n, t) ∈ l → (n, t') ∈ l → t = t' :=
+      fun n t t' h1 h2 => hc n t t' (List.mem_cons_of_mem _ h1) (List.mem_cons_of_mem _ h2)
     simp only [List.foldl_cons]
-    by_cases hk : k ∈ acc
-    · have hc : acc.contains k = true := by simpa using hk
-      simp only [hc, if_true]
-      refine ⟨(ih acc).1, fun x => ?_⟩
-      rw [(ih acc).2 x]
-      simp only [List.mem_cons]
+    rw [ih _ hc', lookup_setItem]
+    simp only [List.mem_cons, Prod.mk.injEq, List.map_cons, not_or]
+    by_cases hm : m = n
+    · subst hm
+      simp only [if_true, Option.some.injEq, true_and, not_true_eq_false, false_and, or_false]
+      constructor
+      · rintro (h1 | ⟨_, h1⟩)
+        · exact Or.inr h1
+        · exact Or.inl h1.symm
+      · rintro (h1 | h1)
+        · by_cases hin : m ∈ l.map Prod.fst
+          · obtain ⟨⟨m', t'⟩, hmem, hm'⟩ := List.mem_map.mp hin
+            simp only at hm'; subst hm'
+            have := hc m' u t' (by simp) (List.mem_cons_of_mem _ hmem)
+            subst this; subst h1
+            exact Or.inl hmem
+          · exact Or.inr ⟨hin, h1.symm⟩
+        · exact Or.inl h1
+    · have hm' : ¬ n = m := fun x => hm x.symm
+      simp [hm, hm']
+
+/-- The reported dict has each interface name once, and (the same name carrying the same
+properties) exactly the object's (interface, properties) pairs. -/
+theorem dictOf_complete (l : List (Str × Nat)) (hc : ∀ n t t', (n, t) ∈ l → (n, t') ∈ l → t = t') :
+    (keys (dictOf l)).Nodup ∧ ∀ n t, (n, t) ∈ dictOf l ↔ (n, t) ∈ l := by
+  have hn : (keys (dictOf l)).Nodup := nodup_keys_foldl_setItem l [] (by simp [keys])
+  refine ⟨hn, fun n t => ?_⟩
+  rw [mem_table_iff_lookup _ hn, dictOf, lookup_foldl_setItem l [] hc]
+  simp [lookup]
+
+theorem mem_keys_foldl_setItem (l : List (Str × Nat)) (d : Table Nat) (n : Str) :
+    n ∈ keys (l.foldl (fun d kv => setItem d kv.1 kv.2) d) ↔ n ∈ keys d ∨ n ∈ l.map Prod.fst := by
+  induction l generalizing d with
+  | nil => simp
+  | cons kv l ih =>
+    simp only [List.foldl_cons, ih, keys_setItem, List.map_cons, List.mem_cons]
+    split
+    · rename_i hin
       constructor
       · rintro (h | h)
         · exact Or.inl h
         · exact Or.inr (Or.inr h)
       · rintro (h | rfl | h)
         · exact Or.inl h
-        · exact Or.inl hk
+        · exact Or.inl hin
         · exact Or.inr h
-    · have hc : acc.contains k = false := by simpa using hk
-      simp only [hc, Bool.false_eq_true, if_false]
-      refine ⟨fun hn => (ih (acc ++ [k])).1 ?_, fun x => ?_⟩
-      · rw [List.nodup_append]
-        refine ⟨hn, by simp, ?_⟩
-        intro a ha b hb
-        simp at hb; subst hb
-        intro hab; subst hab; exact hk ha
-      · rw [(ih (acc ++ [k])).2 x]
-        simp only [List.mem_append, List.mem_cons, List.not_mem_nil, or_false]
-        constructor
-        · rintro ((h | h) | h)
-          · exact Or.inl h
-          · exact Or.inr (Or.inl h)
-          · exact Or.inr (Or.inr h)
-        · rintro (h | h | h)
-          · exact Or.inl (Or.inl h)
-          · exact Or.inl (Or.inr h)
-          · exact Or.inr h
+    · simp only [List.mem_append, List.mem_cons, List.not_mem_nil, or_false]
+      constructor
+      · rintro ((h | h) | h)
+        · exact Or.inl h
+        · exact Or.inr (Or.inl h)
+        · exact Or.inr (Or.inr h)
+      · rintro (h | h | h)
+        · exact Or.inl (Or.inl h)
+        · exact Or.inl (Or.inr h)
+        · exact Or.inr h
 
-theorem mem_dictKeys (l : List Str) (x : Str) : x ∈ dictKeys l ↔ x ∈ l := by
-  have := (dictKeys_aux l []).2 x
-  simpa [dictKeys] using this
-
-theorem nodup_dictKeys (l : List Str) : (dictKeys l).Nodup :=
-  (dictKeys_aux l []).1 (by simp)
+/-- Without any assumption: the reported interface names are exactly the object's, each once. -/
+theorem keys_dictOf (l : List (Str × Nat)) (n : Str) : n ∈ keys (dictOf l) ↔ n ∈ l.map Prod.fst := by
+  rw [dictOf, mem_keys_foldl_setItem]; simp [keys]
 
 /-! ### code: `getManagedObjects` -/
 
-theorem mem_managed (p : Str) (e : Exports) (k : Str) (ifs : List Str) (pl : Nat) :
-    (k, ifs, pl) ∈ managed p e ↔
-      (startsWith k (dirPrefix p) = true ∧ k ≠ p) ∧
-        ∃ o, lookup e k = some o ∧ ifs = dictKeys o.ifaces ∧ pl = o.payload := by
-  simp only [managed, List.mem_filterMap, List.mem_filter, (sortStr_perm (keys e)).mem_iff, entryOf,
-    Option.map_eq_some_iff, Prod.mk.injEq]
+theorem mem_managedKeys (p : Str) (e : Exports) (k : Str) :
+    k ∈ managedKeys p e ↔ k ∈ keys e ∧ startsWith k (dirPrefix p) = true ∧ k ≠ p := by
+  simp only [managedKeys, List.mem_filter, (sortStr_perm (keys e)).mem_iff]
   constructor
-  · rintro ⟨k', ⟨_, hc⟩, o, ho, rfl, rfl, rfl⟩
-    refine ⟨?_, o, ho, rfl, rfl⟩
-    simpa using hc
-  · rintro ⟨hc, o, ho, rfl, rfl⟩
-    refine ⟨k, ⟨?_, by simpa using hc⟩, o, ho, rfl, rfl, rfl⟩
+  · rintro ⟨h1, h2⟩; exact ⟨h1, by simpa using h2⟩
+  · rintro ⟨h1, h2⟩; exact ⟨h1, by simpa using h2⟩
+
+theorem mem_managed (p : Str) (e : Exports) (k : Str) (d : Table Nat) :
+    (k, d) ∈ managed p e ↔
+      (startsWith k (dirPrefix p) = true ∧ k ≠ p) ∧ ∃ o, lookup e k = some o ∧ d = dictOf o.ifaces := by
+  simp only [managed, List.mem_filterMap, mem_managedKeys, entryOf, Option.map_eq_some_iff, Prod.mk.injEq]
+  constructor
+  · rintro ⟨k', ⟨_, hc⟩, o, ho, rfl, rfl⟩
+    exact ⟨hc, o, ho, rfl⟩
+  · rintro ⟨hc, o, ho, rfl⟩
+    refine ⟨k, ⟨?_, hc⟩, o, ho, rfl, rfl⟩
     rw [mem_keys_iff, ho]; rfl
 
 theorem map_fst_filterMap_entryOf (e : Exports) (l : List Str) :
@@ -424,8 +495,17 @@ theorem map_fst_filterMap_entryOf (e : Exports) (l : List Str) :
 
 theorem nodup_managed_keys (p : Str) (e : Exports) (h : (keys e).Nodup) :
     ((managed p e).map (fun x => x.1)).Nodup := by
-  simp only [managed, map_fst_filterMap_entryOf]
+  simp only [managed, managedKeys, map_fst_filterMap_entryOf]
   exact (((sortStr_perm (keys e)).nodup_iff.mpr h).filter _).filter _
+
+/-- When every object of the table can be sent, GetManagedObjects does not fail. -/
+theorem managedSendable_of_all (p : Str) (e : Exports) (h : ∀ k o, lookup e k = some o → o.sendable = true) :
+    managedSendable p e = true := by
+  simp only [managedSendable, List.all_eq_true]
+  intro k _
+  cases ho : lookup e k with
+  | none => rfl
+  | some o => exact h k o ho
 
 /-! ### code: head of `handleMethodCallMessage` -/
 
@@ -439,14 +519,14 @@ theorem handle_ordinary (e : Exports) (p : Str) :
 theorem handle_managed (e : Exports) (p : Str) :
     handle e p .getManagedObjects = match lookup e p with
       | none => .unknownObject p
-      | some o => .managed (managed o.path e) := by
+      | some o => if managedSendable o.path e then .managed (managed o.path e) else .managedFailed := by
   simp only [handle]
   cases lookup e p <;> simp
 
 theorem handle_introspect (e : Exports) (p : Str) :
     handle e p .introspect =
       if lookup e p = none ∧ introspectChildren p e = [] then .unknownObject p
-      else .introspection ((lookup e p).map (·.ifaces)) (introspectChildren p e) := by
+      else .introspection ((lookup e p).map (·.ifaceNames)) (introspectChildren p e) := by
   simp only [handle, introspect]
   cases ho : lookup e p with
   | none =>
